@@ -166,7 +166,8 @@ def string_values():
     return st.one_of(
         st.builds(lambda s: {"s": "text", "v": s}, plain_text()),
         st.builds(lambda s: {"s": "text", "v": s}, plain_text()),
-        st.builds(lambda s: {"s": "text", "v": s}, st.sampled_from(["abc", "Option A", "data", "x y z"])),
+        st.builds(lambda s: {"s": "text", "v": s}, st.sampled_from(["abc", "Option A", "data", "x y z", " ", "\t", "  ",
+                                                                   " padded "])),
         st.builds(lambda s: {"s": "numlike", "v": s}, st.sampled_from(NUMLIKE)),
         st.builds(lambda s: {"s": "numlike", "v": s}, st.sampled_from(NUMLIKE)),
         st.builds(lambda s: {"s": "inf", "v": s}, st.sampled_from(["inf", "-inf"])),
@@ -624,7 +625,7 @@ def materialize(program: dict, cat: dict, ws, geoh5_value) -> Built:
             if skind == "text":
                 value = safe_text(sval["v"])
                 expected = snap(value)
-                vclass = "string:text" if value.isascii() else "string:unicode"
+                vclass = "string:blank" if not value.strip() else "string:text" if value.isascii() else "string:unicode"
             elif skind == "numlike":
                 value = sval["v"]
                 if classify_string(value) != "str":
@@ -966,8 +967,13 @@ def run_roundtrip(program: dict, res, pid: str = "C14"):
                             if m.get("kind") != "plain") and not any(
                 (s.get("sw") or {}).get("raw") for s in program.get("forms") or [])
             if clean:
+                # every form holds a value of its own domain and consistent switches: such a file must be accepted
                 res.label("construct-rejected-clean:" + where_raised(exc))
                 res.info["construct_error"] = f"{where_raised(exc)}: {str(exc)[:200]}"
+                culprit, culprit_name = blame_form(exc, built)
+                res.fail(tagged(built, culprit_name, f"{pid}/construct-raises-on-domain-values/{where_raised(exc)}/{culprit}"),
+                         f"InputFile(ui_json) refused a file whose forms all hold values of their domain: "
+                         f"{type(exc).__name__}: {str(exc)[:300]}")
             return stats
         stats["constructed"] = True
         snap0 = {k: snap(v) for k, v in data0.items()}
